@@ -9,7 +9,10 @@
 use super::util::u64s;
 use rustybuzz::verif::digest as d;
 
-pub fn handle(toks: &[&str]) -> Option<String> {
+pub const CMDS: &[&str] = &["digest"];
+
+pub fn handle(toks: &[&str], _st: &mut crate::State) -> Option<String> {
+    let toks = &toks[1..];
     match *toks.first()? {
         "add" => {
             let v = u64s(&toks[1..])?;
